@@ -514,7 +514,9 @@ var nSched, nViol, nBlocked, nPoints int
 // settled waits for the asynchronous removers / eviction callbacks to finish after everything was
 // closed and reports how many secrets are still live (0 = every key was released).
 func (w *world) settled() int64 {
-	for i := 0; i < 200; i++ {
+	// (wall-clock patience only matters when something IS still live: 20 s, so that a machine busy with
+	// other work cannot turn a slow remover goroutine into a reported leak)
+	for i := 0; i < 4000; i++ {
 		if atomic.LoadInt64(&w.sf.live) == 0 {
 			return 0
 		}
